@@ -186,6 +186,8 @@ def rules(ctx):
     ctx.rule('R11.6', "Python call list, PyArg_ParseTuple format and C variable types agree; parallel arrays in lockstep", floor=14)
     ctx.rule('R11.7', "max_index (optional) is guarded before arithmetic", floor=2)
     ctx.rule('R11.8', "kernels assign only +-1 / sign flips / the supplied state to the state; spin flag literal True", floor=6)
+    ctx.rule('R11.9', "the C energy functions visit every term: no continue/break/goto, the accumulation of every "
+                      "spin / term is unconditional", floor=5)
     C = ctx.cprog
     pk = P.func('_anneal._package_spin_results')
 
@@ -330,6 +332,7 @@ def rules(ctx):
 
     # ---------------------------------------------------------------- R11.8 (C)
     state_value_set(ctx, 'R11.8')
+    energy_loops(ctx, 'R11.9')
 
 
 def state_value_set(ctx, rid):
@@ -368,3 +371,22 @@ def state_value_set(ctx, rid):
             ctx.inst(rid, (f.unit, fname), '%s %s %s' % (a['lhs'], a['op'], rhs), ok, msg)
     if n < 4:
         raise AnalysisError("R11.8: fewer than 4 assignments to the state found in the kernels")
+
+
+def energy_loops(ctx, rid):
+    C = ctx.cprog
+    for fname, acc in (('quso_value', 'value'), ('puso_value', 'value'), ('puso_subgraph_value', 'value'),
+                       ('compute_flip_dE', 'flip_spin_dE[i]'), ('recompute_flip_dE', None)):
+        f = C.func(fname)
+        ok = not f.jumps
+        ctx.inst(rid, (f.unit, fname), 'no jumps in %s' % fname, ok,
+                 "every spin / term is visited" if ok else
+                 "%s contains %s inside its loops: some spins / terms are skipped and the reported energy no longer "
+                 "equals the model's value at the state" % (fname, sorted({j['kind'] for j in f.jumps})))
+        if acc:
+            adds = [a for a in f.assigns if a['lhs'] == acc and a['op'] in ('+=', '=') and a['loops']]
+            outer = [a for a in adds if len(a['loops']) == 1]
+            oka = bool(outer) and all(not a['guards'] for a in outer)
+            ctx.inst(rid, (f.unit, fname), 'accumulation of %s per outer iteration' % acc, oka,
+                     "each outer iteration contributes unconditionally" if oka else
+                     "the per-spin / per-term contribution to `%s` is conditional or missing" % acc)
